@@ -9,7 +9,7 @@ Line protocol for the C20 model.
   sync.connrace (loginReturns|install|loginAndInstall|sessionCloses …) -> ok installed=<b> closed=<b> event=<b> closeReturns=<b>
   witness C20                                         -> ok (name cfg labels)*  the runs the Witness theorems are about
   sync.exec <execute|execute_sync> <alive at call 0|1> <argument ok 0|1> <returned|exception class> ((c d dl a d2)*) <done at handler 0|1>
-                                                      -> ok <returned|raised:<class>|looping> passes=<n>     `_wait_for` on the given passes
+                                                      -> ok <returned|raised:<class>|looping> polls=<n>     `_wait_for` on the given passes; n = calls of future.result
 -/
 namespace NasdaqModel.Driver.SyncD
 open NasdaqModel Sexp SyncFacade
@@ -139,8 +139,8 @@ def handle (op : String) (args : List Sexp) : Option String :=
       | "execute" => some (execute a0 argOk fin ps dh)
       | "execute_sync" => some (executeSync a0 argOk a0 fin ps dh)
       | _ => none
-    let used := if a0 && argOk then passesUsed fin ps else 0
-    some s!"ok {resName r} passes={used}"
+    let used := if a0 && argOk then pollsUsed fin ps else 0
+    some s!"ok {resName r} polls={used}"
   | "sync.run", [c, ls] => do
     let cfg ← cfgOf c
     let ls ← (← asList ls).mapM fun x => do labelOf (← asAtom x)
